@@ -28,6 +28,11 @@ func (node *WifeNode) Individual() *IndividualNode {
 		return nil
 	}
 
+	// The pointer may belong to a record that is not an individual.
+	if _, ok := n.(*IndividualNode); !ok {
+		return nil
+	}
+
 	return n.(*IndividualNode)
 }
 
